@@ -216,6 +216,31 @@ def run(chk: Check, eng: Engine) -> None:
         chk.bad("R16-e", eng.relfile(mu), mu.line, mu.fq, f"mutate() draws {len(choices)} time(s) but filters read-only nodes only {len(filters)} time(s)",
                 "a generator-owned node can be chosen as mutation target", keyparts="mutation-readonly")
 
+    # ---- R16-f ---------------------------------------------------------------
+    # a repair that installs *parsed text* (not generator output) must not aim at a generator-defined symbol
+    chk.rule("R16-f", "a repair suggestion that installs text parsed from a constraint's other side never targets a generator-defined symbol", floor=1)
+    sug = eng.cls("fandango.constraints.failing_tree", "Suggestion")
+    n_f = 0
+    for sc in sug.all_subclasses():
+        gr = sc.methods.get("get_replacements")
+        if gr is None:
+            continue
+        parses = [c for c in walk_local(gr.node) if isinstance(c, ast.Call) and call_name(c) == "parse" and isinstance(c.func, ast.Attribute) and "grammar" in norm(c.func.value)]
+        if not parses:
+            continue
+        n_f += 1
+        guards = [t for t in walk_local(gr.node) if isinstance(t, (ast.If, ast.IfExp)) and any(
+            (isinstance(x, ast.Attribute) and x.attr in ("generators", "is_use_generator")) for x in ast.walk(t.test))]
+        rm_guard = "generators" in norm(eng.method(T, "replace_multiple", inherited=False).node).split("new_subtree = ")[0]
+        if guards or rm_guard:
+            chk.ok("R16-f", gr.fq, parses[0].lineno, f"`{short(parses[0], 50)}` is guarded by a generator test of the target")
+        else:
+            chk.bad("R16-f", eng.relfile(gr), parses[0].lineno, gr.fq, f"`{short(parses[0], 60)}` is returned as a replacement for the target whatever the target's symbol",
+                    "for a generator-defined target the generated text is overwritten with text the generator never returned (e.g. `<a> ::= ... := new_id()` with `where <a> == \"42\"`)",
+                    keyparts="parsed-text-into-generator-symbol")
+    if n_f == 0:
+        raise AnalysisError("no Suggestion.get_replacements parses text any more")
+
 
 # ------------------------------------------------------------------ self-test variants
 from ..mutants import M  # noqa: E402
@@ -244,5 +269,7 @@ MUTANTS = [
     M("find-all-nodes-default-false", _T, "    def find_all_nodes(\n        self, symbol: NonTerminal, exclude_read_only: bool = True\n    )", "    def find_all_nodes(\n        self, symbol: NonTerminal, exclude_read_only: bool = False\n    )", "R16-e"),
 ]
 TWINS = [
+    M("twin-repair-skips-generator-targets", "src/fandango/constraints/comparison.py", "        symbol = self._target.symbol\n        assert isinstance(symbol, NonTerminal)\n",
+      "        symbol = self._target.symbol\n        assert isinstance(symbol, NonTerminal)\n        if symbol in grammar.generators:\n            return []\n", None),
     M("twin-seal-loop-var", _NT, "            for child in generated.children:\n                child.set_all_read_only(True)\n", "            for gen_child in generated.children:\n                gen_child.set_all_read_only(True)\n", None),
 ]
